@@ -16,6 +16,13 @@ Three correspondences per composed case, all exact:
 plus scripted (non-conformant, adversarial) mail lists for the master alone and
 adversarial request streams for the server alone.
 
+Histories (mode `hist`): real Terminal objects stay alive over 10-30 steps — configured again through
+the real `parse_sync_managers` / `apply_eeprom` with other mailbox sizes and offsets (the simulated
+hardware follows the table), several objects with different mailboxes used in turn, transfers that
+fail or are cancelled followed by further ones, objects changed between reads, two transfers started
+together.  Every transfer is judged by the mailboxes of its terminal's LAST config step; the whole
+history is compared with Lean `Ebv.SdoHistory.runOps`.  A failing history is shrunk before it is reported.
+
 The property oracle is the property text: object bytes equal, the call returns,
 segment toggles alternate from 0, every message fits its mailbox.  No known
 defect class is left (`classify` is constant): the four classes of
@@ -30,8 +37,8 @@ import struct
 from pathlib import Path
 
 ID = "C16"
-LEAN_MODULES = ["Ebv.Props.C16", "Ebv.Props.C16Config"]
-MODEL_MODULES = ["Ebv.Model.Sdo", "Ebv.Model.SdoServer", "Ebv.Model.SdoSystem", "Ebv.Model.SdoConfig"]
+LEAN_MODULES = ["Ebv.Props.C16", "Ebv.Props.C16Config", "Ebv.Props.C16History"]
+MODEL_MODULES = ["Ebv.Model.Sdo", "Ebv.Model.SdoServer", "Ebv.Model.SdoSystem", "Ebv.Model.SdoConfig", "Ebv.Model.SdoHistory"]
 DRIVER = "Drivers/C16.lean"
 THEOREMS = [
     "Ebv.C16.read_expedited_exact", "Ebv.C16.read_normal_exact", "Ebv.C16.read_segmented_exact",
@@ -41,6 +48,9 @@ THEOREMS = [
     "Ebv.C16.read_requests_fit_and_toggle", "Ebv.C16.write_requests_fit_and_toggle", "Ebv.C16.server_responses_fit",
     "Ebv.C16.read_long_run", "Ebv.C16.write_run",
     "Ebv.C16.mailboxes_exact", "Ebv.C16.configure_exact", "Ebv.C16.configure_none",
+    "Ebv.C16.xfer_msgs_ok", "Ebv.C16.xfer_write_exact", "Ebv.C16.xfer_read_exact",
+    "Ebv.C16.history_present_config", "Ebv.C16.history_write_exact", "Ebv.C16.history_read_exact",
+    "Ebv.C16.history_msgs_ok", "Ebv.C16.instances_independent", "Ebv.C16.after_any_transfer_exact",
 ]
 TRUSTED = [
     "hand-written model Ebv.Sdo of Terminal.sdo_read/sdo_write/mbx_send/mbx_recv, tied by exact trace correspondence",
@@ -50,13 +60,24 @@ TRUSTED = [
     "MBXType/CoECmd/ODCmd values regenerated into Ebv.Generated.Consts",
     "Ebv.SdoConfig.configure: the transfer parameters are what Ebv.Eeprom.parseSM (C17's model of parse_sync_managers, "
     "sm_exact) extracts from the case's sync manager table; the driver derives the model's sizes from the table",
+    "Ebv.SdoHistory: a Terminal object keeps between two uses its four mailbox attributes and the lock's counter, the "
+    "simulated terminal its objects, its mail counter and the transfer it believes to be under way - nothing else, and "
+    "nothing shared between terminals; tied by exact correspondence of whole histories run on live Terminal objects "
+    "(apply_eeprom's EEPROM read is C17's subject: a config step is modelled by the table it ends up parsing)",
 ]
 ASSUMPTIONS = [
     "the datagram queue behind EtherCat.roundtrip is the only way the SDO code touches the bus (answered in-process)",
     "mailbox sizes 16 <= size < 65536, index < 65536, subindex < 256",
-    "the terminal processes a written mailbox at once; register 0x805 bit 3 is under control of the schedule "
+    "the terminal processes a written mailbox at once - written = its last byte was written by an access sequence that "
+    "began at its first byte: a full-size message is handed over by its own write, and the one-byte write mbx_send adds "
+    "is then denied by the ESC (a buffer access must begin at the start address), otherwise that one-byte write hands "
+    "it over; register 0x805 bit 3 is under control of the schedule "
     "(set only while unrelated mail is pending), unrelated mail has a non-CoE mailbox type",
     "a zero-length object is uploaded with a normal response of complete size 0",
+    "histories: a transfer is cancelled only between two exchanges (at the mailbox read of an answer or at the 0x805 "
+    "poll that follows, with delays as the only schedule), i.e. while the terminal has no answer outstanding and no "
+    "message half written; a config step gives the simulated hardware the mailboxes its table describes and ends a transfer the "
+    "terminal believed to be under way; transfers started together on one terminal are serialised by its mbx_lock",
 ]
 RULE = ("composed cases: kind in {read,write} x (out,in) mailbox sizes from {24,32,64,128,256} and odd ones {25,31,57,100,255} x subindex/complete access x "
         "lengths 0..3*mbx+9 (every length for small mailboxes, +-3 around every segment boundary and a random sample for the "
@@ -65,7 +86,16 @@ RULE = ("composed cases: kind in {read,write} x (out,in) mailbox sizes from {24,
         "register image with unused managers, managers of unknown kinds anywhere, random upper control bits and status bytes); "
         "scripted cases: random and near-conformant mail lists (bad types, short bodies, 7-byte last segments, aborts); "
         "server cases: the request streams of the composed cases + random request streams; non-trivial = at least one "
-        "message sent and a response consumed")
+        "message sent and a response consumed; "
+        "history cases (mode hist): 1-3 Terminal objects that stay alive for 10-30 steps = config (real parse_sync_managers or real "
+        "apply_eeprom over a simulated EEPROM; 13 (out,in) size pairs 16..256 incl. odd and asymmetric ones, out/in changed "
+        "independently, smaller and larger, mailbox offsets changed too) / the terminal changes an object / transfer (lengths at the "
+        "message-count boundaries of the present AND of earlier/other mailboxes; all schedules; object missing; value too long for "
+        "the object; cancelled after j answers at the read or the next poll) / two transfers started together on one "
+        "or two terminals with answers arriving 0-2 loop iterations late; families reconf (A->B->C on one object), multi (several "
+        "objects with different mailboxes used in turn), fail (failed/cancelled transfer then the same object again), repeat (same "
+        "object read again after the terminal or a download changed it); every transfer judged by the mailboxes declared by its "
+        "terminal's LAST config step")
 LEVEL_TEXT = (
     "Lean 4 proof over a hand-written model of sdo_read/sdo_write (the code after fix: 7fef356 and a0eb33f) composed with a "
     "conformant ETG.1000.6 SDO server model: uploads (expedited, one frame, any number of segments incl. a short last one) return "
@@ -73,11 +103,18 @@ LEVEL_TEXT = (
     "the value in the object and return - for all contents, all lengths below 2^32, all mailbox sizes 16..65535, indices, counters "
     "and schedules (delays, unrelated mail before every response, 0x805 drain), by induction over the segments that are left; "
     "for every mail script (conformant server or not) all messages fit the receive mailbox and segment toggles alternate from 0; "
-    "every server mail fits the send mailbox. Tied to /repo by exact message-trace correspondence of the real coroutines.")
+    "every server mail fits the send mailbox. All of this for every state the terminal's mailbox service may have been left in "
+    "(any mail counter, any transfer believed under way). Histories (Ebv.SdoHistory: any number of Terminal objects, lists of "
+    "config / object change / transfer operations of any length, transfers cancelled at any bus access): the mailboxes of an object "
+    "are those of its LAST table (history_present_config); after any history a download/upload is exact and every message - also "
+    "of failing and cancelled calls - fits the mailbox of the last table with toggles from 0 (history_write_exact, history_read_exact, "
+    "history_msgs_ok); terminals are independent (instances_independent); a transfer after a failed or cancelled one is exact "
+    "(after_any_transfer_exact). Tied to /repo by exact message-trace correspondence of the real coroutines, single calls and "
+    "whole histories on live Terminal objects.")
 LEVEL_NOTE = (
     "trusted: Lean kernel + propext/Classical.choice/Quot.sound; hand transcription Ebv.Sdo validated (not verified) by "
     "differential traces; the conformant server is our reading of ETG.1000.6 (expedited answer for 1..4 bytes, normal with complete "
-    "size otherwise); ESC behaviour for writes to a full mailbox is not modelled; the four former defect classes (findings/C16.json, "
+    "size otherwise); the one-byte write after a full-size message is taken to be denied by the ESC (stated assumption); the four former defect classes (findings/C16.json, "
     "fixed) are ordinary cases now and their witnesses are re-run on every check")
 TECHNIQUE = "Lean 4 symbolic evaluation/induction over composed master||server model + differential trace correspondence"
 DESIGN_REF = "§4 C16"
@@ -246,28 +283,61 @@ class Sim:
     composed mode (server given): slot k of the schedule belongs to the k-th mbx_send
     scripted mode: `mails` is all the terminal will ever have in its send mailbox"""
 
-    def __init__(self, out_sz, in_sz, fulls, mails=(), server=None, sched=()):
+    def __init__(self, out_sz, in_sz, fulls, mails=(), server=None, sched=(), out_off=None, in_off=None, cut=None, queue=None):
         self.out_sz, self.in_sz = out_sz, in_sz
+        self.out_off = OUT_OFF if out_off is None else out_off      # where the hardware's mailboxes are
+        self.in_off = IN_OFF if in_off is None else in_off
         self.fulls = list(fulls)
-        self.queue = collections.deque([d, bytes(r)] for d, r in mails)
+        self.queue = collections.deque() if queue is None else queue     # the send mailbox and what waits behind it
+        self.queue.extend([d, bytes(r)] for d, r in mails)
         self.server, self.sched = server, list(sched)
         self.trace, self.received, self.requests, self.responses = [], [], [], []
         self.pending = None
         self.nsend = 0
+        self.npoll = 0
         self.ndgram = 0
-        if server is not None and self.sched:
-            self.queue.extend([0, m] for m in self.sched[0]["pre"])
+        # cut = (j, e): the call is cancelled at the await of a bus access (the access itself takes place): for j >= 1
+        # the e-th one counted from the read of the j-th mail (e = 0: that read), for j = 0 the e-th one of the call
+        self.cut, self.nread, self.after, self.cancel_now = cut, 0, 0, False
+
+    def datagram(self, cmd, out, pos, off):
+        res = self.access(cmd, out, pos, off)
+        if self.cut is not None:
+            j, e = self.cut
+            if self.nread == j:
+                if self.after == e:
+                    self.cancel_now, self.cut = True, None
+                self.after += 1
+        return res
 
     def pad(self, m):
         return (m + bytes(self.in_sz))[:self.in_sz]
 
-    def datagram(self, cmd, out, pos, off):
+    def deliver(self):
+        """the terminal takes the mail out of its receive mailbox and answers"""
+        msg, self.pending = self.pending, None
+        k, self.nsend = self.nsend, self.nsend + 1
+        if self.server is not None:
+            req = msg[:self.out_sz]
+            self.requests.append(req)
+            rs = self.server.handle(req)
+            self.responses.append(rs)
+            delay = self.sched[k]["delay"] if k < len(self.sched) else 0
+            self.queue.extend([delay, m] for m in rs)
+
+    def access(self, cmd, out, pos, off):
         from ebpfcat.ethercat import ECCmd
+        OUT_OFF, IN_OFF = self.out_off, self.in_off
         n = len(out)
         self.ndgram += 1
         if self.ndgram > 4000:
             raise Blocked()             # the call keeps the bus busy without getting anywhere
         if cmd is ECCmd.FPRD and off == 0x805 and n == 1:
+            # unrelated mail of slot k is in the send mailbox when the k-th mbx_send starts (the master cannot tell
+            # this from "since the previous request was handed over": it reads nothing in between)
+            k, self.npoll = self.npoll, self.npoll + 1
+            if self.server is not None and k < len(self.sched):
+                self.queue.extend([0, m] for m in self.sched[k]["pre"])
             full = self.fulls.pop(0) if self.fulls else False
             self.trace.append("s8" if full else "s0")
             return bytes([8 if full else 0])
@@ -284,24 +354,20 @@ class Sim:
             d, m = self.queue.popleft()
             self.trace.append("r")
             self.received.append(m)
+            self.nread, self.after = self.nread + 1, 0
             return self.pad(m)
         if cmd is ECCmd.FPWR and off == OUT_OFF:
             self.trace.append("w" + out.hex())
             self.pending = bytes(out)
+            if n >= self.out_sz:        # the write reaches the mailbox's last byte (a full-size segment): handed over now
+                self.deliver()
             return out
         if cmd is ECCmd.FPWR and off == OUT_OFF + self.out_sz - 1 and n == 1:
+            # the last byte alone: hands over what was written from the start of the mailbox; when that was handed over
+            # already, the ESC denies the access (an access to a mailbox buffer must begin at its start address)
             self.trace.append("k")
-            msg, self.pending = self.pending, None
-            k, self.nsend = self.nsend, self.nsend + 1
-            if self.server is not None and msg is not None:
-                req = msg[:self.out_sz]
-                self.requests.append(req)
-                rs = self.server.handle(req)
-                self.responses.append(rs)
-                delay = self.sched[k]["delay"] if k < len(self.sched) else 0
-                self.queue.extend([delay, m] for m in rs)
-                if k + 1 < len(self.sched):
-                    self.queue.extend([0, m] for m in self.sched[k + 1]["pre"])
+            if self.pending is not None:
+                self.deliver()
             return out
         # accesses inside the mailboxes that are not the ones a mail is handed over with: the memory is read / written,
         # but a mail only changes hands with the LAST byte of its mailbox (the hardware's sizes, whatever the master thinks)
@@ -333,7 +399,7 @@ def standard_sm(out_sz, in_sz):
     return sm_record(OUT_OFF, out_sz, 0x26) + sm_record(IN_OFF, in_sz, 0x22) + sm_record(0x1800, 0, 0x24) + sm_record(0x1c00, 0, 0x20)
 
 
-def make_sm(rng, out_sz, in_sz):
+def make_sm(rng, out_sz, in_sz, OUT_OFF=OUT_OFF, IN_OFF=IN_OFF):
     """a table that describes the simulated hardware (send mailbox out_sz bytes at OUT_OFF, receive mailbox in_sz bytes at
     IN_OFF) in one of the shapes such tables come in"""
     hi = lambda: rng.choice([0x00, 0x20, 0x20, 0x30, 0x60])
@@ -784,6 +850,455 @@ def drive_chunks(ctx, lines, parts=6):
     return res
 
 
+# ------------------------------------------------------------------------------------------------
+# histories: Terminal objects that stay alive and are used again — re-configured with other mailboxes, several of them
+# side by side, after failed and cancelled transfers, two transfers started together
+
+POS0 = 0x3e9
+
+
+class Hw:
+    """the simulated hardware of one terminal over a whole history: the object dictionary and the mailbox service
+    (`Server`) persist; `configure` gives it the mailboxes the sync manager table of a config step describes"""
+
+    def __init__(self, objs):
+        self.server = Server(0, 0, objs)
+        self.out_off = self.in_off = self.out_sz = self.in_sz = None
+        self.image = b""
+        self.ee_addr = 0
+        self.sims = collections.deque()          # the transfers that are under way or waiting, in the order they were started
+        self.queue = collections.deque()         # mail the terminal has for the master: it stays until it is read
+        self.sm_written = []
+
+    def configure(self, st):
+        self.out_off, self.out_sz, self.in_off, self.in_sz = st["out_off"], st["out"], st["in_off"], st["in"]
+        self.server.out_sz, self.server.in_sz = st["out"], st["in"]
+        self.server.xfer = None                  # the mailboxes were set up anew: no transfer is under way,
+        self.queue.clear()                       # no mail waits
+        # the EEPROM as apply_eeprom reads it: 0x80 bytes of header, a strings category, category 41 = the table
+        sm = bytes.fromhex(st["sm"])
+        self.image = bytes(0x80) + struct.pack("<HH", 10, 2) + b"\x01\x02ab" + struct.pack("<HH", 41, len(sm) // 2) + sm \
+            + struct.pack("<HH", 0xffff, 0xffff)
+
+    def datagram(self, cmd, out, pos, off):
+        from ebpfcat.ethercat import ECCmd
+        n = len(out)
+        if off == 0x502:                         # EEPROM interface, 8 bytes at a time
+            if cmd is ECCmd.FPWR:
+                self.ee_addr = u32(out, 2) if n >= 6 else self.ee_addr
+                return out
+            data = (self.image[2 * self.ee_addr:2 * self.ee_addr + 8] + b"\xff" * 8)[:8]
+            return (struct.pack("<HI", 0x40, self.ee_addr) + data + bytes(n))[:n]
+        if cmd is ECCmd.FPWR and 0x800 <= off and off + n <= 0xa00:      # the sync manager registers (the table may have spare records)
+            self.sm_written.append((off, bytes(out)))
+            return out
+        if not self.sims:
+            raise AssertionError(f"bus access {cmd} {off:#x} len {n} while no transfer is under way")
+        return self.sims[0].datagram(cmd, out, pos, off)
+
+
+class HQueue:
+    """stands in for EtherCat.send_queue in a history: the datagram takes effect at once at the terminal it is addressed
+    to; `lag` is None: the answer is there at once, else the answer arrives lag[k] loop iterations later (so that tasks
+    started together interleave at every await)"""
+
+    def __init__(self, hws):
+        self.hws, self.lag, self.k = hws, None, 0
+
+    def put_nowait(self, item):
+        cmd, out, idx, pos, off, future = item
+        hw = self.hws.get(pos)
+        try:
+            if hw is None:
+                raise AssertionError(f"datagram for position {pos}: no such terminal")
+            res, exc = hw.datagram(cmd, bytes(out), pos, off), None
+        except Exception as e:
+            res, exc = None, e
+        sim = hw.sims[0] if hw is not None and hw.sims else None
+        if exc is None and sim is not None and sim.cancel_now:
+            sim.cancel_now = False
+            future.cancel()                       # the await of this datagram raises CancelledError
+            return
+        done = (lambda: future.set_exception(exc)) if exc is not None else (lambda: future.set_result(res))
+        if self.lag is None:
+            return done()
+        n, self.k = self.lag[self.k % len(self.lag)], self.k + 1
+        loop = asyncio.get_event_loop()
+
+        def later(left):
+            if future.cancelled():
+                return
+            done() if left <= 0 else loop.call_soon(later, left - 1)
+        loop.call_soon(later, n)
+
+
+def outcome_of(kind, fut_result, exc):
+    from ebpfcat.ethercat import EtherCatError
+    if exc is None:
+        if kind == "read":
+            return "ok:" + bytes(fut_result).hex()
+        return "ok:" if fut_result is None else "other:returned"
+    for typ, name in ((Blocked, "blocked"), (asyncio.CancelledError, "cancelled"), (AssertionError, "assertion"),
+                      (EtherCatError, "ethercat-error"), (TypeError, "type-error"), (NameError, "name-error"),
+                      (ValueError, "value-error"), (struct.error, "struct-error")):
+        if isinstance(exc, typ):
+            return name
+    return "other:" + type(exc).__name__
+
+
+def hist_key(st):
+    return (st["index"], 1 if st["sub"] is None else st["sub"], st["sub"] is None)
+
+
+def run_hist(case):
+    """a history on real Terminal objects that stay alive from the first step to the last; returns one record per step"""
+    global _loop
+    from ebpfcat.ethercat import EtherCat, Terminal
+    if _loop is None:
+        _loop = asyncio.new_event_loop()
+    asyncio.set_event_loop(_loop)
+    hws = {POS0 + i: Hw([]) for i in range(len(case["objs"]))}
+    for hw, objs in zip(hws.values(), case["objs"]):
+        hw.server.objs = [[i, s, bool(ca), cap, bytes.fromhex(v)] for i, s, ca, cap, v in objs]
+    ec = EtherCat("sim")
+    queue = ec.send_queue = HQueue(hws)
+    terms = []
+    for i, pos in enumerate(hws):
+        t = Terminal(ec)
+        t.position, t.name = pos, f"T{i}"
+        t.mbx_lock = ec.get_mbx_lock(pos)              # as Terminal.initialize does
+        t.mbx_lock.counter = case["cnt"][i]
+        terms.append(t)
+    recs = []
+
+    async def transfer(st, rec):
+        t, hw = terms[st["t"]], hws[POS0 + st["t"]]
+        sched = [{"full": s["full"], "delay": s["delay"], "pre": [bytes.fromhex(m) for m in s["pre"]]} for s in st["sched"]]
+        sim = Sim(hw.out_sz, hw.in_sz, [s["full"] for s in sched], server=hw.server, sched=sched,
+                  out_off=hw.out_off, in_off=hw.in_off, cut=tuple(st["cut"]) if st.get("cut") else None, queue=hw.queue)
+        rec["sim"] = sim
+        hw.sims.append(sim)
+        res = exc = None
+        try:
+            if st["kind"] == "read":
+                res = await t.sdo_read(st["index"], st["sub"])
+            else:
+                res = await t.sdo_write(bytes.fromhex(st["value"]), st["index"], st["sub"])
+        except BaseException as e:      # CancelledError included: it is an outcome here
+            exc = e
+        finally:
+            hw.sims.remove(sim)          # the next transfer on this terminal has the mailboxes from here on
+        rec["out"] = outcome_of(st["kind"], res, exc)
+        o = hw.server.find(*hist_key(st))
+        rec["obj"] = None if o is None else o[4]
+
+    async def go():
+        steps, i = case["steps"], 0
+        while i < len(steps):
+            st = steps[i]
+            t, hw = terms[st["t"]], hws[POS0 + st["t"]]
+            rec = {"st": st, "hw": (hw.out_sz, hw.in_sz)}
+            if st["op"] == "config":
+                hw.configure(st)
+                rec["hw"] = (hw.out_sz, hw.in_sz)
+                try:
+                    if st.get("via") == "eeprom":
+                        await t.apply_eeprom()
+                    else:
+                        t.parse_sync_managers(bytes.fromhex(st["sm"]))
+                    rec["out"] = "cfg:" + ":".join(str(getattr(t, a, None)) for a in
+                                                   ("mbx_out_off", "mbx_out_sz", "mbx_in_off", "mbx_in_sz"))
+                except Exception as e:
+                    rec["out"] = "cfg-failed:" + type(e).__name__
+                recs.append(rec)
+            elif st["op"] == "set":                     # the terminal itself changes the object
+                o = hw.server.find(st["index"], st["sub"], st["ca"])
+                if o is not None:
+                    o[4] = bytes.fromhex(st["value"])
+                rec["out"] = "set"
+                recs.append(rec)
+            else:
+                group = [(st, rec)]
+                if st.get("par") and i + 1 < len(steps) and steps[i + 1]["op"] == "xfer":
+                    i += 1
+                    h2 = hws[POS0 + steps[i]["t"]]
+                    group.append((steps[i], {"st": steps[i], "hw": (h2.out_sz, h2.in_sz)}))
+                for s, r in group:
+                    o = hws[POS0 + s["t"]].server.find(*hist_key(s))
+                    r["before"] = None if o is None else o[4]
+                if len(group) == 1:
+                    await transfer(st, rec)
+                else:
+                    queue.lag, queue.k = st.get("lag") or [0], 0
+                    try:
+                        await asyncio.gather(*[transfer(s, r) for s, r in group])
+                    finally:
+                        queue.lag = None
+                    if group[0][0]["t"] == group[1][0]["t"] and group[0][0]["kind"] == "write" \
+                            and hist_key(group[0][0]) == hist_key(group[1][0]):
+                        group[1][1]["before"] = group[0][1]["obj"]      # the lock serialises them in this order
+                recs.extend(r for _, r in group)
+            i += 1
+
+    logging.disable(logging.CRITICAL)
+    try:
+        _loop.run_until_complete(go())
+    finally:
+        logging.disable(logging.NOTSET)
+    return recs
+
+
+def hist_line(recs):
+    parts = []
+    for r in recs:
+        if r["st"]["op"] == "xfer":
+            parts.append(show(r["sim"].trace, r["out"]) + " | obj:" + ("-" if r["obj"] is None else r["obj"].hex()))
+        else:
+            parts.append(r["out"])
+    return " || ".join(parts)
+
+
+def oracle_hist(require, case, recs):
+    """the property text on every transfer of the history, each judged by the mailboxes its terminal has AT THAT TIME (the
+    sizes declared by the last config step for it) and by what the terminal's object holds at that time"""
+    obs = hist_line(recs)
+    caps = [{(i, s, bool(ca)): cap for i, s, ca, cap, _ in objs} for objs in case["objs"]]
+    last_cnt = {}
+    ok = True
+    for k, r in enumerate(recs):
+        st = r["st"]
+        if st["op"] != "xfer":
+            continue
+        sim, (out_sz, in_sz) = r["sim"], r["hw"]
+        if out_sz is None:
+            continue                             # a terminal that was never configured: outside the domain
+        at = f"step {k} (terminal {st['t']}, mailboxes {out_sz}/{in_sz}): "
+        for m in sim.trace:
+            if m[0] == "w" and m[1:2] != "@":
+                ok &= require(len(m) // 2 <= out_sz, at + "a message does not fit the receive mailbox", case, obs, None)
+        for rs in sim.responses:
+            for m in rs:
+                ok &= require(len(m) <= in_sz, at + "a response does not fit the send mailbox", case, obs, None)
+        segs = [t for ccs, t in sdo_requests(sim) if ccs in (0, 3)]
+        ok &= require(segs == [i & 1 for i in range(len(segs))], at + "segment toggles do not alternate from 0", case, obs, None)
+        for m in sim.requests:                   # ETG.1000.4: a mail with the counter of the one before is a repetition
+            c = m[5] >> 4 if len(m) >= 6 else 0
+            ok &= require(c == 0 or c != last_cnt.get(st["t"]), at + "a mail carries the counter of the mail before it "
+                          "(a conformant terminal drops it as a repetition)", case, obs, None)
+            last_cnt[st["t"]] = c
+        val = bytes.fromhex(st["value"])
+        cap = caps[st["t"]].get(hist_key(st))
+        if st.get("cut") or cap is None or r["before"] is None:
+            continue                             # cancelled, or no such object: the property promises nothing
+        if st["kind"] == "read":
+            ok &= require(r["out"] == "ok:" + r["before"].hex(), at + "sdo_read did not return the object's bytes", case, obs, None)
+        elif len(val) <= cap:
+            ok &= require(r["obj"] == val, at + "the object does not hold the written bytes", case, obs, None)
+            ok &= require(r["out"] == "ok:", at + "sdo_write did not return although nothing went wrong on the bus", case, obs, None)
+    return ok
+
+
+def hist_fails(case):
+    bad = []
+    oracle_hist(lambda cond, *a, **k: bool(cond) or bad.append(1) is not None and False, case, run_hist(case))
+    return bool(bad)
+
+
+def shrink_hist(case):
+    """a shorter history that still fails: the shortest failing prefix, then without every step that is not needed"""
+    steps = case["steps"]
+    for n in range(1, len(steps) + 1):
+        if hist_fails(dict(case, steps=steps[:n])):
+            steps = steps[:n]
+            break
+    i = len(steps) - 2
+    while i >= 0:
+        first_config = steps[i]["op"] == "config" and not any(
+            q["op"] == "config" and q["t"] == steps[i]["t"] for q in steps[:i])      # a terminal is configured before it is used
+        if not first_config and not steps[i].get("par") and not (i > 0 and steps[i - 1].get("par")):
+            cand = steps[:i] + steps[i + 1:]
+            if hist_fails(dict(case, steps=cand)):
+                steps = cand
+        i -= 1
+    return dict(case, steps=steps)
+
+
+HIST_CONFS = [(24, 24), (32, 32), (64, 48), (128, 128), (256, 64), (40, 40), (128, 256), (25, 31), (57, 100), (255, 24),
+              (16, 16), (64, 64), (48, 200)]
+BIG, SMALLCAP, MISSING = 2000, 0x2ff0, 0x2ee0      # capacity of ordinary objects; an object that holds 4 bytes; no object
+
+
+def hist_objs(rng):
+    objs = []
+    for k in range(4):
+        objs.append([INDEX + k, 1 + k % 2, False, BIG, pattern(rng, rng.choice([0, 2, 9, 40])).hex()])
+        objs.append([INDEX + k, 1, True, BIG, pattern(rng, rng.choice([0, 3, 30])).hex()])
+    objs.append([SMALLCAP, 1, False, 4, "0102"])
+    objs.append([SMALLCAP, 1, True, 4, ""])
+    return objs
+
+
+def hist_config(rng, t, conf):
+    out_sz, in_sz = conf
+    oo, io = rng.choice([0x1000, 0x1000, 0x1080, 0x1100]), rng.choice([0x1400, 0x1400, 0x1200, 0x1480, 0x1600])
+    return {"op": "config", "t": t, "out": out_sz, "in": in_sz, "out_off": oo, "in_off": io,
+            "sm": make_sm(rng, out_sz, in_sz, oo, io).hex(), "via": rng.choice(["parse", "parse", "eeprom"])}
+
+
+def hist_lengths(rng, kind, cur, others, k):
+    """k lengths around the points where the number of messages changes — for the mailbox the terminal has now and for
+    the mailboxes it (or another Terminal object of the history) had before"""
+    def marks(conf):
+        s = conf[1] if kind == "read" else conf[0]
+        first, seg = s - 16, s - 9
+        return [first - 1, first, first + 1, first + 6, first + 7, first + seg - 1, first + seg, first + seg + 1,
+                first + 2 * seg, first + 2 * seg + 1, first + 2 * seg + 5]
+    res = [rng.choice(marks(cur)[2:])]                       # at least one segmented transfer
+    pool = marks(cur) + [m for o in others for m in marks(o)] + [0, 1, 4, 5, 11]
+    while len(res) < k:
+        res.append(rng.choice(pool) if rng.random() < 0.9 else rng.randrange(0, 3 * max(cur) + 10))
+    return [max(0, n) for n in res]
+
+
+def hist_xfer(rng, t, kind, conf, n, k=None, sub="std", style="plain", cut=None):
+    k = rng.randrange(4) if k is None else k
+    index = INDEX + k
+    if sub == "std":
+        sub = rng.choice([1 + k % 2, 1 + k % 2, None])
+    st = {"op": "xfer", "t": t, "kind": kind, "index": index, "sub": sub, "value": pattern(rng, n).hex() if kind == "write" else "",
+          "sched": schedule(rng, conf[1], style, min(2 + n // max(1, min(conf) - 9), 8)), "cut": cut}
+    return st
+
+
+def hist_set(rng, st, n):
+    i, s, ca = hist_key(st)
+    return {"op": "set", "t": st["t"], "index": i, "sub": s, "ca": ca, "value": pattern(rng, n).hex()}
+
+
+def hist_phase(rng, t, conf, others, nw, nr):
+    """transfers on terminal t while it has the mailboxes `conf`: downloads each read back, uploads of what the terminal
+    put into the object itself"""
+    steps = []
+    for n in hist_lengths(rng, "write", conf, others, nw):
+        style = rng.choice(["plain", "plain", "plain", "delay", "mail", "drain"])
+        w = hist_xfer(rng, t, "write", conf, n, style=style)
+        steps.append(w)
+        if rng.random() < 0.6:
+            r = dict(w, kind="read", value="", sched=schedule(rng, conf[1], rng.choice(["plain", "delay"]), 8))
+            steps.append(r)
+    for n in hist_lengths(rng, "read", conf, others, nr):
+        r = hist_xfer(rng, t, "read", conf, n, style=rng.choice(["plain", "plain", "delay", "mail", "drain"]))
+        steps += [hist_set(rng, r, n), r]
+    return steps
+
+
+def gen_hist_reconf(rng):
+    """one Terminal object configured three times, with transfers in between"""
+    confs = rng.sample(HIST_CONFS, 3)
+    if rng.random() < 0.3:
+        confs[2] = confs[0]                                   # back to the first configuration
+    steps = []
+    for j, conf in enumerate(confs):
+        steps.append(hist_config(rng, 0, conf))
+        steps += hist_phase(rng, 0, conf, confs[:j] + confs[j + 1:], 3, 2)
+    return {"mode": "hist", "family": "reconf", "cnt": [rng.randrange(0, 8)], "objs": [hist_objs(rng)], "steps": steps}
+
+
+def gen_hist_multi(rng):
+    """two or three Terminal objects with different mailboxes, used in turn; one of them gets other mailboxes on the way"""
+    nt = rng.choice([2, 2, 3])
+    confs = rng.sample(HIST_CONFS, nt)
+    steps = [hist_config(rng, t, confs[t]) for t in range(nt)]
+    for _ in range(rng.randrange(6, 11)):
+        t = rng.randrange(nt)
+        if rng.random() < 0.12:
+            confs[t] = rng.choice(HIST_CONFS)
+            steps.append(hist_config(rng, t, confs[t]))
+            continue
+        others = confs[:t] + confs[t + 1:]
+        kind = rng.choice(["read", "write"])
+        n = hist_lengths(rng, kind, confs[t], others, 2)[rng.randrange(2)]
+        x = hist_xfer(rng, t, kind, confs[t], n, style=rng.choice(["plain", "plain", "delay", "mail"]))
+        if kind == "read":
+            steps.append(hist_set(rng, x, n))
+        steps.append(x)
+        if rng.random() < 0.3:                                # started together with a transfer on this or another terminal
+            t2 = rng.randrange(nt)
+            kind2 = rng.choice(["read", "write"])
+            n2 = hist_lengths(rng, kind2, confs[t2], confs[:t2] + confs[t2 + 1:], 1)[0]
+            y = hist_xfer(rng, t2, kind2, confs[t2], n2, k=(x["index"] - INDEX + 1 + rng.randrange(3)) % 4, style="plain")
+            y["sub"] = 1 + (y["index"] - INDEX) % 2
+            if kind2 == "read":
+                steps.insert(len(steps) - 1, hist_set(rng, y, n2))
+            x["par"], x["lag"] = True, [rng.randrange(0, 3) for _ in range(rng.randrange(1, 6))]
+            steps.append(y)
+    return {"mode": "hist", "family": "multi", "cnt": [rng.randrange(0, 8) for _ in range(nt)],
+            "objs": [hist_objs(rng) for _ in range(nt)], "steps": steps}
+
+
+def gen_hist_fail(rng):
+    """transfers that fail (no such object, value too long for the object) or are cancelled between two exchanges, each
+    followed by further transfers on the same Terminal object"""
+    conf = rng.choice(HIST_CONFS)
+    steps = [hist_config(rng, 0, conf)]
+    for _ in range(rng.randrange(2, 5)):
+        mode = rng.choice(["missing", "toolong", "cut", "cut", "cut"])
+        kind = "write" if mode == "toolong" else rng.choice(["read", "write"])
+        s = conf[1] if kind == "read" else conf[0]
+        msgs = rng.randrange(2, 6)                            # messages a complete transfer of n bytes takes
+        n = (s - 16) + (msgs - 2) * (s - 9) + rng.randrange(1, s - 8) if mode != "missing" or rng.random() < 0.5 else rng.randrange(0, 9)
+        x = hist_xfer(rng, 0, kind, conf, n, style=rng.choice(["plain", "delay"]))
+        if mode == "missing":
+            x["index"] = MISSING
+        elif mode == "toolong":
+            x["index"], x["sub"] = SMALLCAP, rng.choice([1, None])
+        else:
+            j = rng.randrange(0, msgs + 1)
+            x["cut"] = [j, 0 if j == 0 else rng.randrange(0, 2)]      # at the first poll / at the read of answer j or the poll after it
+            if kind == "read":
+                steps.append(hist_set(rng, x, n))
+        steps.append(x)
+        # the next uses: the same object again (a segmented transfer, so that toggles start anew), then others
+        y = hist_xfer(rng, 0, rng.choice(["read", "write"]), conf, 0, style="plain")
+        if mode == "cut":
+            y["index"], y["sub"] = x["index"], x["sub"]
+        n2 = hist_lengths(rng, y["kind"], conf, [], 1)[0]
+        if y["kind"] == "read":
+            steps.append(hist_set(rng, y, n2))
+        else:
+            y["value"] = pattern(rng, n2).hex()
+        steps.append(y)
+        steps += hist_phase(rng, 0, conf, [], 1, 1)
+    return {"mode": "hist", "family": "fail", "cnt": [rng.randrange(0, 8)], "objs": [hist_objs(rng)], "steps": steps}
+
+
+def gen_hist_repeat(rng):
+    """the same object of the same terminal again and again, changed in between by the terminal and by downloads"""
+    conf = rng.choice(HIST_CONFS)
+    steps = [hist_config(rng, 0, conf)]
+    x = hist_xfer(rng, 0, "read", conf, 0)
+    n = 0
+    for _ in range(rng.randrange(5, 10)):
+        r = rng.random()
+        if r < 0.35:
+            n = hist_lengths(rng, "read", conf, [], 1)[0] if rng.random() < 0.6 else n      # often the same length again
+            steps.append(hist_set(rng, x, n))
+        elif r < 0.65:
+            n = hist_lengths(rng, "write", conf, [], 1)[0] if rng.random() < 0.6 else n
+            steps.append(dict(x, kind="write", value=pattern(rng, n).hex()))
+        steps.append(dict(x, sched=schedule(rng, conf[1], rng.choice(["plain", "plain", "delay"]), 8)))
+    return {"mode": "hist", "family": "repeat", "cnt": [rng.randrange(0, 8)], "objs": [hist_objs(rng)], "steps": steps}
+
+
+def gen_hist(ctx):
+    rng = ctx.rng
+    cases = []
+    for gen, quick, thorough in ((gen_hist_reconf, 36, 500), (gen_hist_multi, 40, 600), (gen_hist_fail, 40, 600),
+                                 (gen_hist_repeat, 24, 300)):
+        cases += [gen(rng) for _ in range(ctx.n(quick, thorough))]
+    return cases
+
+
 def known_witnesses():
     f = Path(__file__).resolve().parents[3] / "findings" / "C16.json"
     if not f.exists():
@@ -809,6 +1324,14 @@ def run(ctx):
         lines.append(s3)
         checks.append(("python server vs SdoServer", s3,
                        " ".join("+".join(m.hex() for m in rs) or "-" for rs in sim.responses) + " | " + srv.show_objs(), None))
+    for c in gen_hist(ctx):
+        recs = run_hist(c)
+        xs = [r for r in recs if r["st"]["op"] == "xfer"]
+        ctx.case(c, nontrivial=sum(1 for r in xs if r["sim"].requests and r["sim"].received) >= 2, kind="hist:" + c["family"])
+        for r in xs:
+            ctx.stats[f"hist-transfer:{r['st']['kind']}:{'cut:' if r['st'].get('cut') else ''}{r['out'].split(':')[0]}"] += 1
+        lines.append(c)
+        checks.append(("history on live Terminal objects vs SdoHistory.runOps", c, hist_line(recs), ("hist", recs)))
     for _ in range(ctx.n(1500, 60000)):
         c = gen_script(rng)
         sim, out = run_script(c)
@@ -823,6 +1346,7 @@ def run(ctx):
         checks.append(("python server vs SdoServer", c, run_server(c), None))
     model = drive_chunks(ctx, lines)
     found = []                       # oracle failures, buffered: (cls, what, case, observed)
+    shrunk = 0
 
     def buffer(cond, what, case, observed=None, cls=None):
         if not cond:
@@ -833,9 +1357,16 @@ def run(ctx):
         same = model is not None
         if model is not None:
             same = ctx.agree(what, c, impl, model[i])
-            if orc is not None:      # the scripted twin of a composed case must agree as well
+            if orc is not None and orc[0] != "hist":      # the scripted twin of a composed case must agree as well
                 same = same and show(orc[0].trace, orc[2]) == model[i + 1]
-        if orc is not None:
+        if orc is not None and orc[0] == "hist":
+            n0 = len(found)
+            if not oracle_hist(buffer, c, orc[1]) and shrunk < 4:      # report a short history that still fails
+                shrunk += 1
+                del found[n0:]
+                small = shrink_hist(c)
+                oracle_hist(buffer, small, run_hist(small))
+        elif orc is not None:
             # a failure is attributed to its class only when the code showed exactly the modelled defect
             oracle(buffer, c, *orc, attributed=same)
     if model is not None:
@@ -856,6 +1387,10 @@ def run(ctx):
 
 
 def replay(ctx, case):
+    if case.get("mode") == "hist":
+        recs = run_hist(case)
+        oracle_hist(ctx.require, case, recs)
+        return {"trace": hist_line(recs)}
     if case.get("mode") == "script":
         sim, out = run_script(case)
         return {"trace": show(sim.trace, out)}
